@@ -249,7 +249,7 @@ CHECKS["C14"] = dict(
     level_note="Bounds: source {f, d/, d/g, sl -> 8 candidate targets, d/sl?}, destination collision points f, d, d/g, x in {absent, symlink -> 5 candidate targets, file/dir}, src path in {., f, d, sl, sl/g}, dst path in {., x, d, x/y}, flags dir-contents / follow-links / always-replace; explored as two sub-spaces (source-side variety with clean destination; destination-side variety with fixed source) plus a reduced joint space in the thorough tier. Check-then-use races are outside (single actor). " + FS_TRUST + BASE_TRUST,
     assumptions=["link targets are drawn from fixed candidate lists (file names are concrete)", "single actor: nothing changes the trees between a check and its use"],
     obligations=[
-        ob("VH_C14_contain", dict(MODE=0), pkg=COPY, covers=["error", "success"], bounds="source-side symlink variety x path arguments x flags, clean destination"),
+        ob("VH_C14_contain", dict(MODE=0), pkg=COPY, covers=["error", "success", "mode-option"], bounds="source-side symlink variety x path arguments x flags (incl. a numeric mode option), clean destination"),
         ob("VH_C14_contain", dict(MODE=1), pkg=COPY, covers=["error", "success"], bounds="destination-side symlink variety x flags, fixed source link"),
         ob("VH_C14_contain", dict(MODE=2), T, pkg=COPY, covers=["error", "success"], bounds="both sides over reduced candidate lists", max_paths=600000),
     ],
